@@ -81,7 +81,8 @@ def gen_cases(rng, tier):
                 cases.append(["e%d" % k, "c15", init, ";".join(g)]); k += 1
     for g in ("drop,frame", "drop,frame,frame", "drop,close", "drop,garbage", "drop;adv:5;select;drop,frame", "clone,drop,drop,frame",
               "drop,select", "frame,drop;adv:32001", "drop;adv:31999;frame;adv:31999;adv:2", "close;select", "garbage;select;drop",
-              "drop;adv:32001;select", "drop;adv:31999;select;adv:40000;drop;adv:32001"):
+              "drop;adv:32001;select", "drop;adv:31999;select;adv:40000;drop;adv:32001",
+              "drop,select;adv:32001", "drop,select;adv:40000;frame", "drop,select;adv:31999;adv:2;select", "drop,select,drop;adv:32001"):
         cases.append(["e%d" % k, "c15", "out", g]); k += 1
     return cases
 
